@@ -461,6 +461,505 @@ def run_queue(chk: Check, mr: ModelRun):
         os.chdir(cwd)
         shutil.rmtree(tmp, ignore_errors=True)
 
+# ------------------------------------------------------------------ Q4 damaged records (checksum strength)
+import contextlib
+import copy
+import random
+import re as _re2
+import warnings
+
+GREEK = 'αβγδεζηθικλμνξοπρστυφχψω'
+WORDS = ['alice', 'bob', 'credit', 'debit', 'transfer', 'from', 'to', 'parse', 'check', 'emit', 'A-17', 'B-02', 'nop',
+         'Zürich', 'x y', 'ab', 'ba', 'stop', 'spot', 'post']
+
+
+@contextlib.contextmanager
+def quiet():
+    """unhashed() reports every rejected record on stderr and through warnings: thousands of them are expected here"""
+    with open(os.devnull, 'w') as dn, contextlib.redirect_stderr(dn), warnings.catch_warnings():
+        warnings.simplefilter('ignore')
+        yield
+
+
+def gen_record(rng, depth=0):
+    """record-like payloads (words, numbers with several digits, work lists, nested settings)"""
+    r = rng.random()
+    if depth >= 2 or r < 0.3:
+        k = rng.random()
+        if k < 0.4:
+            return rng.choice([rng.randint(10, 99999), rng.randint(-5000, 5000), rng.randint(10 ** 6, 10 ** 9),
+                               round(rng.uniform(0, 999), 2)])
+        if k < 0.5:
+            return rng.choice([None, True, False, 0])
+        return ' '.join(rng.choice(WORDS) for _ in range(rng.randint(1, 4)))
+    if r < 0.55:
+        return [gen_record(rng, depth + 1) for _ in range(rng.randint(1, 4))]
+    keys = rng.sample(['op', 'amount', 'acct', 'job', 'todo', 'meta', 'tries', 'n', 'who', 'note', 'k1', 'k2'], rng.randint(1, 4))
+    return {k: gen_record(rng, depth + 1) for k in keys}
+
+
+def fixed_packet(rng, to, data):
+    """a Packet with an id drawn from the seeded generator (ids are normally clock-derived)"""
+    from tatsu.packetz.packet import Packet
+    p = Packet(to=to, data=data)
+    p.id = ''.join(rng.choice(GREEK) for _ in range(8))
+    return p
+
+
+HEAD = _re2.compile(r'^\{"hash":"([^"]*)","data":')
+
+
+def _split(line):
+    m = HEAD.match(line)
+    return m.group(1), m.end(), len(line) - 1       # checksum, start of the data text, end of the data text (before the last '}')
+
+
+def _sub(line, i, j, text):
+    return line[:i] + text + line[j:]
+
+
+def corruptions(rng, line, other):
+    """(class, damaged line) pairs: the ways one record of the file can be damaged.
+    `other` is another intact record of the same file.  No damaged line holds a line end."""
+    h, a, b = _split(line)
+    D = line[a:b]
+    out = []
+
+    def pos():
+        return a + rng.randrange(len(D))
+    # --- the bytes are all still there, in another order (what a checksum that only adds things up cannot see)
+    c = [i for i in range(a, b - 1) if line[i] != line[i + 1]]
+    if c:
+        i = rng.choice(c)
+        out.append(('transpose-neighbours', _sub(line, i, i + 2, line[i + 1] + line[i])))
+    for _ in range(8):
+        i, j = sorted((pos(), pos()))
+        if line[i] != line[j]:
+            out.append(('exchange-two-characters', line[:i] + line[j] + line[i + 1:j] + line[i] + line[j + 1:]))
+            break
+    runs = [m for m in _re2.finditer(r'\d{2,}', D) if len(set(m.group())) > 1]
+    if runs:
+        m = rng.choice(runs)
+        t = list(m.group())
+        i, j = rng.sample(range(len(t)), 2)
+        for _ in range(8):
+            if t[i] != t[j]:
+                break
+            i, j = rng.sample(range(len(t)), 2)
+        if t[i] != t[j]:
+            t[i], t[j] = t[j], t[i]
+            out.append(('exchange-two-digits', _sub(line, a + m.start(), a + m.end(), ''.join(t))))
+    toks = list(_re2.finditer(r'[A-Za-z0-9]+', D))
+    if len(toks) >= 2:
+        m1, m2 = sorted(rng.sample(toks, 2), key=lambda m: m.start())
+        if m1.group() != m2.group():
+            out.append(('exchange-two-words', line[:a + m1.start()] + m2.group() + line[a + m1.end():a + m2.start()]
+                        + m1.group() + line[a + m2.end():]))
+    al = [i for i in range(a, b) if line[i].isascii() and line[i].isalnum() and chr(ord(line[i]) + 1).isalnum()
+          and chr(ord(line[i]) - 1).isalnum()]
+    if len(al) >= 2:
+        i, j = sorted(rng.sample(al, 2))
+        out.append(('one-up-one-down', line[:i] + chr(ord(line[i]) + 1) + line[i + 1:j] + chr(ord(line[j]) - 1) + line[j + 1:]))
+    if len(D) > 4:
+        k = rng.randint(1, len(D) - 1)
+        out.append(('rotate-data', _sub(line, a, b, D[k:] + D[:k])))
+    # --- single-character damage
+    i = pos()
+    out.append(('replace-character', _sub(line, i, i + 1, rng.choice([x for x in 'aZ09 ,:"{}[]~\\é' if x != line[i]]))))
+    i = pos()
+    out.append(('delete-character', _sub(line, i, i + 1, '')))
+    i = pos()
+    out.append(('insert-character', _sub(line, i, i, rng.choice('aZ09 ,:"{}[]~\\é\x00'))))
+    i = pos()
+    out.append(('double-character', _sub(line, i, i, line[i])))
+    cs = [i for i in range(a, b) if line[i].swapcase() != line[i] and len(line[i].swapcase()) == 1]
+    if cs:
+        i = rng.choice(cs)
+        out.append(('flip-case', _sub(line, i, i + 1, line[i].swapcase())))
+    tail = max(a, b - 3) + rng.randrange(min(3, len(D)))
+    out.append(('damage-near-end', _sub(line, tail, tail + 1, 'x' if line[tail] != 'x' else 'y')))
+    out.append(('pad-with-space', _sub(line, a, a, ' ') if rng.random() < 0.5 else _sub(line, b, b, ' ')))
+    out.append(('data-emptied', _sub(line, a, b, rng.choice(['', '{}', 'null', '""']))))
+    # --- torn and run-together records
+    closes = [i + 1 for i in range(a, b) if line[i] == '}']
+    cut = rng.choice(closes) if closes and rng.random() < 0.7 else rng.randint(a, b)
+    out.append(('torn-record', line[:cut]))
+    out.append(('torn-record-then-next', line[:cut] + other))
+    out.append(('two-records-on-one-line', line + other))
+    out.append(('junk-after-record', line + rng.choice(['}', ' ', 'x}', ',{}}', '\x00'])))
+    out.append(('junk-before-record', rng.choice([' ', 'x', '{', '\ufeff']) + line))
+    # --- the checksum field itself
+    oh, oa, ob = _split(other)
+    if oh != h:
+        out.append(('data-of-another-record', _sub(line, a, b, other[oa:ob])))
+    if h.upper() != h:
+        out.append(('checksum-uppercased', _sub(line, 9, 9 + len(h), h.upper())))
+    out.append(('checksum-shortened', _sub(line, 9, 9 + len(h), h[:rng.randint(1, len(h) - 1)])))
+    out.append(('checksum-lengthened', _sub(line, 9, 9 + len(h), h + rng.choice('0a9f'))))
+    out.append(('checksum-leading-zero', _sub(line, 9, 9 + len(h), '0' + h)))
+    i = rng.randrange(len(h))
+    out.append(('checksum-digit-changed', _sub(line, 9 + i, 10 + i, rng.choice([x for x in '0123456789abcdef' if x != h[i]]))))
+    out.append(('checksum-emptied', _sub(line, 9, 9 + len(h), '')))
+    if h != '0000':
+        out.append(('checksum-zeroed', _sub(line, 9, 9 + len(h), '0000')))
+    return [(k, t) for k, t in out if t != line and '\n' not in t and '\r' not in t]
+
+
+def beyond_chance(k, n, bits=16, p=1e-5):
+    """k accepted of n tried is more than a `bits`-bit checksum lets through by chance (Poisson tail below p)"""
+    import math
+    lam = n / 2 ** bits
+    tail = 1.0 - sum(math.exp(-lam) * lam ** i / math.factorial(i) for i in range(k))
+    return k >= 2 and tail < p
+
+
+def run_damage(chk: Check, mr: ModelRun):
+    """A record damaged in the file is skipped by unpack() and by every reader; its neighbours are delivered."""
+    from tatsu.packetz.packet import BadPacketError, pack, unpack
+    from tatsu.packetz.queue import PacketzQueue
+    rng = random.Random(f'{PID}-damage-{chk.seed}')
+    SKIPPED = (BadPacketError, json.JSONDecodeError, TypeError, ValueError)     # what PacketzQueue.receive() steps over
+    tmp = Path(tempfile.mkdtemp(prefix='verif-c19-', dir='/var/tmp'))
+    cwd = os.getcwd()
+    os.chdir(tmp)
+    accepted: dict = {}      # class -> [(outcome, original line, damaged line)]
+    tried: dict = {}
+    fbad = []
+    reqs, expect = [], []
+
+    def fate(bad):
+        try:
+            unpack(bad + '\n')
+            return 'delivered'
+        except SKIPPED:
+            return None
+        except Exception as e:
+            return 'reader-stops-' + type(e).__name__
+
+    try:
+        with quiet():
+            ngroups = 45 if chk.quick else 900
+            for it in range(ngroups):
+                n = rng.randint(2, 5)
+                pkts = []
+                for _ in range(n):
+                    data = gen_record(rng) if rng.random() < 0.7 else gen_payload(rng)
+                    pkts.append(fixed_packet(rng, rng.choice(['r', 'bank', 'log', 'worker~1', None]), data))
+                if len({p.id for p in pkts}) < n:
+                    continue
+                lines = [pack(p) for p in pkts]
+                # (a) unpack() alone
+                per_record = []
+                for i, line in enumerate(lines):
+                    cs = corruptions(rng, line, lines[(i + 1) % n])
+                    per_record.append(cs)
+                    for klass, bad in cs:
+                        tried[klass] = tried.get(klass, 0) + 1
+                        chk.count('damage.' + klass)
+                        chk.case('damage:' + bad, nontrivial=True)
+                        outcome = fate(bad)
+                        if outcome:
+                            accepted.setdefault(klass, []).append((outcome, line, bad))
+                # (b) the same damage inside a queue file: the reader hands out exactly the intact records
+                damaged = {}
+                for i in range(n):
+                    if rng.random() < 0.45 and per_record[i]:
+                        damaged[i] = rng.choice(per_record[i])
+                path = tmp / f'd{it}.jsonl'
+                q = PacketzQueue(path=path)
+                ops, want, got = [], [], []
+                half = rng.randint(0, n)
+                for i in range(n):
+                    with q.writer() as f:
+                        f.write((damaged[i][1] if i in damaged else lines[i]) + '\n')
+                    if i in damaged:
+                        ops.append([Atom('send'), Atom('corrupt')])
+                    else:
+                        ops.append([Atom('send'), [Atom('good'), i + 1]])
+                        want.append(i + 1)
+                    if i + 1 == half or i + 1 == n:
+                        ops.append([Atom('recv'), i + 1])
+                        try:
+                            for p in q.receive():
+                                k = [j + 1 for j, s in enumerate(pkts) if s.id == p.id]
+                                ok = bool(k) and k[0] - 1 not in damaged and p.to == pkts[k[0] - 1].to \
+                                    and p.data == pkts[k[0] - 1].data
+                                got.append(k[0] if ok else -1)
+                        except Exception:
+                            got.append(-2)
+                chk.case('damage-file:' + sx(ops) + repr(sorted(damaged)), nontrivial=bool(damaged))
+                chk.count('damage.files')
+                reqs.append(f'(queue {sx(ops)})')
+                explained = any(fate(damaged[i][1]) for i in damaged)     # a damaged line of this file passes unpack()
+                expect.append((ops, got, explained))
+                if got != want and not explained:
+                    # unpack() skips every damaged line of this file, the reader still went wrong
+                    fbad.append((sorted({damaged[i][0] for i in damaged}), want, got,
+                                 '\n'.join(damaged[i][1] if i in damaged else lines[i] for i in range(n))))
+                path.unlink(missing_ok=True)
+        # The checksum has 16 bits: one random damage in 65536 goes through whatever the implementation does.  The number of
+        # accepted damaged lines (per class, and in all) must be what that chance explains: anything a Poisson count with
+        # mean tried/65536 reaches with probability below 1e-5 is a violation (quick tier: two of one class, four in all).
+        total, ntried = sum(len(v) for v in accepted.values()), sum(tried.values())
+        chk.count('damage.accepted-by-chance(16-bit checksum)', total)
+        guilty = sorted(k for k, v in accepted.items() if beyond_chance(len(v), tried.get(k, 0)))
+        if not guilty and beyond_chance(total, ntried):
+            guilty = sorted(accepted)
+        cbad = 0
+        for (ops, got, explained), rep in zip(expect, mr.ask(reqs)):
+            mdel = [int(x) for x in rep[1]] if rep[1] != 'nil' else []
+            if mdel != got and (guilty or not explained):
+                cbad += 1
+                chk.violation('corr:queue-damaged-records', 'PacketzQueue differs from the model on a file with damaged records',
+                              {'correspondence': 'Q4 damaged records', 'ops': sx(ops), 'impl': got, 'model': mdel})
+        chk.obligation('Q4:files with damaged records vs Queue.v (damaged = Corrupt)', 'correspondence',
+                       cbad == 0, f'{cbad} of {len(reqs)} files differ')
+        if guilty:
+            ex = {}
+            for k in guilty:
+                outcome, line, bad = min(accepted[k], key=lambda t: len(t[2]))
+                ex[k] = {'outcome': outcome, 'sent': line, 'in_file': bad, 'accepted': len(accepted[k]), 'tried': tried.get(k, 0)}
+            kinds = sorted({o.split('-')[0] for k in guilty for o, _, _ in accepted[k]})
+            chk.violation('oracle:damaged-record-not-skipped:' + '+'.join(guilty),
+                          f'damaged records are not skipped ({"/".join(kinds)}): ' +
+                          ', '.join(f'{k} {len(accepted[k])}/{tried.get(k, 0)}' for k in guilty),
+                          {'oracle': 'a damaged line is never delivered and never stops the reader', 'classes': ex})
+        if fbad:
+            klasses, want, got, text = min(fbad, key=lambda t: len(t[3]))
+            chk.violation('oracle:reader-of-damaged-file', 'a reader of a file with damaged records did not deliver exactly the intact '
+                          'records, although unpack() rejects each damaged line',
+                          {'oracle': 'damaged lines in a queue file', 'damage': klasses, 'file': text, 'want': want, 'got': got,
+                           'files': len(fbad)})
+        chk.obligation('Q4:damaged records are skipped (unpack and reader)', 'oracle', not guilty and not fbad,
+                       f'{total} accepted of {sum(tried.values())}')
+    finally:
+        os.chdir(cwd)
+        shutil.rmtree(tmp, ignore_errors=True)
+
+
+# ------------------------------------------------------------------ Q5 readers do not share what they received
+def containers(x, acc=None):
+    """id -> [number of paths, the object] of every mutable container reachable from a payload (holding the objects
+    keeps them alive, so an id cannot be given to a younger object while the result is in use)"""
+    acc = {} if acc is None else acc
+    if isinstance(x, (list, dict)):
+        if id(x) in acc:
+            acc[id(x)][0] += 1
+            return acc
+        acc[id(x)] = [1, x]
+        for y in (x.values() if isinstance(x, dict) else x):
+            containers(y, acc)
+    return acc
+
+
+def consume(rng, p):
+    """what a consumer may do with ITS packet: use the payload as its own work list / scratch record"""
+    def walk(x):
+        if isinstance(x, list):
+            k = rng.randrange(6)
+            if k == 0 and x:
+                x.pop()
+            elif k == 1:
+                x.append('done')
+            elif k == 2:
+                x.clear()
+            elif k == 3 and x:
+                x[rng.randrange(len(x))] = 'seen'
+            elif k == 4:
+                x.reverse()
+                x.insert(0, 0)
+            for y in list(x):
+                if rng.random() < 0.7:
+                    walk(y)
+        elif isinstance(x, dict):
+            k = rng.randrange(5)
+            if k == 0:
+                x['done'] = True
+            elif k == 1 and x:
+                del x[rng.choice(sorted(x))]
+            elif k == 2:
+                x.clear()
+            elif k == 3 and x:
+                kk = rng.choice(sorted(x))
+                x[kk] = (x[kk] + 1) if isinstance(x[kk], int) and not isinstance(x[kk], bool) else None
+            for y in list(x.values()):
+                if rng.random() < 0.7:
+                    walk(y)
+    how = rng.randrange(4)
+    if how != 3:
+        walk(p.data)
+        if isinstance(p.data, list) and rng.random() < 0.5:
+            p.data.append('by-reader')
+        elif isinstance(p.data, dict) and rng.random() < 0.5:
+            p.data['consumed'] = 'by-reader'
+    if how >= 2 or not isinstance(p.data, (list, dict)):
+        p.data = 'consumed'
+    if rng.random() < 0.5:
+        p.to = 'nobody'
+
+
+def run_isolation(chk: Check, mr: ModelRun):
+    """Several readers of one file in one process, consumers that change what they received, a sender that goes on
+    changing what it sent: every reader still receives every packet once, in order, with the data as sent."""
+    from tatsu.packetz.packet import pack, unpack
+    from tatsu.packetz.queue import PacketzQueue
+    rng = random.Random(f'{PID}-isolation-{chk.seed}')
+    tmp = Path(tempfile.mkdtemp(prefix='verif-c19-', dir='/var/tmp'))
+    cwd = os.getcwd()
+    os.chdir(tmp)
+
+    def payload():
+        d = gen_record(rng) if rng.random() < 0.6 else gen_payload(rng)
+        if not isinstance(d, (list, dict)) and rng.random() < 0.7:
+            d = {'job': rng.randint(1, 99), 'todo': [d, 'check', 'emit'][:rng.randint(1, 3)], 'meta': {'tries': 0}}
+        return d
+
+    try:
+        with quiet():
+            # ---- (a) unpack()/pack() called again on the same line / the same packet object
+            npk = 300 if chk.quick else 6000
+            for it in range(npk):
+                data, to = payload(), rng.choice(['r', 'all', None, 'worker~1'])
+                pristine = copy.deepcopy(data)
+                p = fixed_packet(rng, to, data)
+                line = pack(p) + '\n'
+                u1 = unpack(line)
+                if (u1.to, u1.data) != (to, pristine):
+                    continue        # not a round-tripping payload: run_pack's business
+                chk.case('isolation-unpack:' + line, nontrivial=isinstance(data, (list, dict)))
+                chk.count('isolation.unpack-twice')
+                c1 = containers(u1.data)
+                shared_in = [k for k, c in c1.items() if c[0] > 1]
+                consume(rng, u1)
+                u2 = unpack(line)
+                c2 = containers(u2.data)
+                c0 = containers(data)
+                shared = u1 is u2 or bool(set(c1) & set(c2)) or bool((set(c1) | set(c2)) & set(c0))
+                if (u2.to, u2.data) != (to, pristine) or shared or shared_in:
+                    why = ('second unpack of a line returns what the first caller made of its packet'
+                           if (u2.to, u2.data) != (to, pristine) else 'two unpacked packets share mutable containers')
+                    chk.violation('oracle:unpack-shares-state', why,
+                                  {'oracle': 'unpack twice', 'line': line, 'sent': [to, pristine], 'second': [str(u2.to), repr(u2.data)],
+                                   'same_object': u1 is u2})
+                # the sender changes its packet and packs it again: the new line carries the new data
+                if isinstance(p.data, (list, dict)):
+                    consume(rng, p)
+                    now = copy.deepcopy((getattr(p, 'to', None), p.data))
+                    try:
+                        u3 = unpack(pack(p) + '\n')
+                        got3 = (u3.to, u3.data)
+                    except Exception as e:
+                        got3 = ('raised', type(e).__name__)
+                    if got3 != now and now != (to, pristine):
+                        chk.violation('oracle:pack-stale', 'packing a packet again after changing it gives the old record',
+                                      {'oracle': 'pack again', 'first': [to, pristine], 'then': list(now), 'decoded': repr(got3)})
+
+            # ---- (b) several readers of one file
+            nh = 90 if chk.quick else 2000
+            reqs, expect = [], []
+            obad = 0
+            for it in range(nh):
+                path = tmp / f'i{it}.jsonl'
+                writer = PacketzQueue(path=path)
+                readers = [PacketzQueue(path=path) for _ in range(rng.randint(1, 3))]
+                rops = [[] for _ in readers]       # model ops per reader
+                rgot = [[] for _ in readers]       # (id number, to, data at the moment of receipt) per reader
+                held = []                          # every packet object handed out
+                sent, sends, ids = [], [], {}      # (idnum, to, pristine) / model send ops / id -> number
+                state = {'alias': False, 'nlines': 0, 'collide': False}
+                seen_c = {}                        # every container handed out so far (kept alive), by id
+
+                def hand_out(p):
+                    held.append(p)
+                    for k, v in containers(getattr(p, 'data', None)).items():
+                        state['alias'] |= k in seen_c or v[0] > 1
+                        seen_c[k] = v
+
+                def recv(j):
+                    rops[j].append([Atom('recv'), state['nlines']])
+                    for p in readers[j].receive():
+                        rgot[j].append((ids.get(p.id, -1), getattr(p, 'to', None), copy.deepcopy(getattr(p, 'data', None))))
+                        hand_out(p)
+                        if rng.random() < 0.8:
+                            consume(rng, p)
+
+                for _ in range(rng.randint(2, 9)):
+                    r = rng.random()
+                    if r < 0.45:
+                        data, to = payload(), rng.choice(['all', 'all', 'r', None])
+                        pristine = copy.deepcopy(data)
+                        pkt = writer.send(to=to, data=data)
+                        state['collide'] |= pkt.id in ids
+                        ids.setdefault(pkt.id, len(ids) + 1)
+                        sent.append((ids[pkt.id], to, pristine))
+                        op = [Atom('send'), [Atom('good'), ids[pkt.id]]]
+                        state['nlines'] += 1
+                        sends.append(op)
+                        for o in rops:
+                            o.append(op)
+                        hand_out(pkt)
+                        if rng.random() < 0.5:
+                            consume(rng, pkt)          # the sender goes on working on what it sent
+                    elif r < 0.52:
+                        with path.open('at', encoding='utf-8') as f:
+                            f.write('not a packet at all\n')
+                        op = [Atom('send'), Atom('corrupt')]
+                        state['nlines'] += 1
+                        sends.append(op)
+                        for o in rops:
+                            o.append(op)
+                    elif r < 0.9:
+                        recv(rng.randrange(len(readers)))
+                    elif len(readers) < 5:
+                        readers.append(PacketzQueue(path=path))     # a reader created late starts from the beginning
+                        rops.append(list(sends))
+                        rgot.append([])
+                readers.append(PacketzQueue(path=path))
+                rops.append(list(sends))
+                rgot.append([])
+                for j in rng.sample(range(len(readers)), len(readers)):
+                    recv(j)
+                chk.case('isolation:' + sx(rops) + repr(sent), nontrivial=len(sent) > 0 and len(readers) > 1)
+                chk.count('isolation.histories')
+                chk.count('isolation.readers', len(readers))
+                if state['collide']:
+                    chk.count('queue.id_collisions')
+                    path.unlink(missing_ok=True)
+                    continue
+                for j in range(len(readers)):
+                    reqs.append(f'(queue {sx(rops[j])})')
+                    expect.append((rops[j], [g[0] for g in rgot[j]]))
+                    if rgot[j] != sent:
+                        obad += 1
+                        first = next((i for i, (g, s) in enumerate(zip(rgot[j], sent)) if g != s), min(len(rgot[j]), len(sent)))
+                        ids_ok = [g[0] for g in rgot[j]] == [s[0] for s in sent]
+                        chk.violation('oracle:reader-isolation:' + ('data-differs' if ids_ok else 'lost-or-repeated'),
+                                      'a reader did not receive every packet once, in order, with the recipient and data that were sent, '
+                                      'after other readers / the sender changed their own copies',
+                                      {'oracle': 'several readers, consumers that change their packets', 'reader': j,
+                                       'readers': len(readers), 'ops_of_this_reader': sx(rops[j]), 'first_difference_at': first,
+                                       'sent': repr(sent[first:first + 1]), 'received': repr(rgot[j][first:first + 1])})
+                # nothing handed out to one party is reachable from what another party holds
+                if state['alias'] or len({id(p) for p in held}) != len(held):
+                    obad += 1
+                    chk.violation('oracle:received-packets-share-state', 'packets handed to different readers (or the sender\'s own packet) '
+                                  'are the same object or share mutable containers',
+                                  {'oracle': 'no aliasing between received packets', 'readers': len(readers), 'sent': repr(sent)[:400]})
+                path.unlink(missing_ok=True)
+        cbad = 0
+        for (ops, got), rep in zip(expect, mr.ask(reqs)):
+            mdel = [int(x) for x in rep[1]] if rep[1] != 'nil' else []
+            if mdel != got:
+                cbad += 1
+                chk.violation('corr:queue-several-readers', 'a reader of a shared file differs from the model run on its own history',
+                              {'correspondence': 'Q5 several readers', 'ops': sx(ops), 'impl': got, 'model': mdel})
+        chk.obligation('Q5:each of several readers of one file vs Queue.v', 'correspondence', cbad == 0)
+        chk.obligation('Q5:readers receive the data as sent whatever others do with their copies', 'oracle',
+                       obad == 0 and not any(v['signature'] in ('oracle:unpack-shares-state', 'oracle:pack-stale') for v in chk.violations))
+    finally:
+        os.chdir(cwd)
+        shutil.rmtree(tmp, ignore_errors=True)
+
 
 def main():
     chk = Check(PID)
@@ -468,12 +967,19 @@ def main():
                 'over the characters the encoding uses; pack: generated nested payloads (every 5th drawn from the '
                 'risky stream with @/__class__ keys and style-like strings); queue: random send/corrupt/receive histories '
                 'with cut-short views, truncation at every byte offset of the last record. Non-trivial: the string has a '
-                'tilde or is changed by the encoder / payload non-empty / history longer than 2 ops; distinct by content hash.')
+                'tilde or is changed by the encoder / payload non-empty / history longer than 2 ops; distinct by content hash. '
+                'damage: every record of generated files damaged in ~30 ways (bytes exchanged, moved, one up one down, single '
+                'characters, torn / run-together lines, the checksum field), through unpack() and through a reader of the file; '
+                'isolation: 1-5 readers of one file in one process whose consumers (and the sender) change their own packets in place, '
+                'unpack twice / pack again.')
     chk.trusted += ['Python re (for the regexes in compact.py), json, blake2b checksum, the file system',
                     'modelled: compact.py rle_encode/rle_decode (\\d restricted to ASCII digits), queue.py send/receive at '
                     'record granularity; not modelled: json text, asjson/fromjson (oracle only), class_escape (constants checked)']
     chk.assumptions += ['packet ids are pairwise distinct (new_id() is monotonic_ns mod 10^8; collisions counted in distribution)',
-                        'a send appends its record with one write; readers see prefixes of the file']
+                        'a send appends its record with one write; readers see prefixes of the file',
+                        'the record checksum has 16 bits, so one random damage in 65536 is accepted by any implementation: accepted '
+                        'damaged lines are counted as chance while their number (per damage class and in all) stays within what a Poisson '
+                        'count of mean tried/65536 reaches with probability 1e-5; more is a violation']
     source_shape(chk)
     st = chk.coq()
     ok, out = vlib.build_modelrun('Packetz')
@@ -483,6 +989,8 @@ def main():
         run_rle(chk, mr)
         run_pack(chk)
         run_queue(chk, mr)
+        run_damage(chk, mr)
+        run_isolation(chk, mr)
     chk.exhaustive = False
     return chk.finish()
 
